@@ -156,6 +156,12 @@ impl<'a, E: Elem> GSeq<'a, E> {
                 cx.cov(&[OpKind::Unflatten as u64, nm as u64, n as u64]);
                 self.put_nest(cx, nest)
             }
+            // a length that is not a multiple of the inner length may be rejected (any panic message)
+            Err(Panicked::Other(_)) if nm % n != 0 => {
+                cx.cov(&[OpKind::Unflatten as u64, nm as u64, n as u64, 1]);
+                cx.probe("unflatten of a length that is not a multiple of the inner length was rejected");
+                cx.op_panicked = true;
+            }
             Err(p) => on_panic(cx, "unflatten", p),
         }
     }
